@@ -745,9 +745,14 @@ def rule_process_state(ctx) -> None:
             ctx.violation("C01.HIST", ctx.okey(f"{fn.qual}/class-attribute-keeps-state"), fn.loc(c),
                           f"`{cls}.{attr}` is a container bound at class level (`{src(d)[:40]}`) and `{src(c)[:50]}` edits it through the instance: every instance - every engine state "
                           "in the process - shares it, so results depend on what ran before")
+        for fn, x, how in hazards.shallow_template_copies(ctx, mn):
+            n_bad += 1
+            ctx.violation("C01.HIST", ctx.okey(f"{fn.qual}/template-shared-by-shallow-copy"), fn.loc(x),
+                          f"module-level template {how}: it holds lists / dicts of its own, which every receiver then shares - what one engine state appends (merge / split records, tallies) "
+                          "shows up in the state and snapshots of every later one in the process, so a warm process and a fresh one write different bodies")
     ctx.floor("C01.HIST", "functions on the canonical path scanned for state that outlives a call", n_fn, 150)
     ctx.holds("C01.HIST", "canonical-path/no-accidental-process-state", "clematis/engine",
-              f"{n_fn} functions of {len(mods)} modules: {n_bad} mutable default arguments / class-level containers edited in place; " + hazards.controls(ctx, "clematis.engine.health", ["state"]))
+              f"{n_fn} functions of {len(mods)} modules: {n_bad} mutable default arguments / class-level containers edited in place / nested module templates handed out by shallow copy; " + hazards.controls(ctx, "clematis.engine.health", ["state", "template"]))
 
 
 def run(ctx) -> None:
